@@ -1,2 +1,4 @@
 SPECIFICATION TSpec
+CONSTANTS
+  CodeDefects = {"MapOrderDispatch", "ProtoOverrideDropped", "TypeNameCollision"}
 CHECK_DEADLOCK FALSE
